@@ -471,10 +471,11 @@ def exotic_names(t):
 def check_cql_string(ctx, rng, T, tt, tree):
     sp = rng.choice(["", " ", " ", "  "])
     s = tt.cql_string(tree, sp)
-    if rng.random() < 0.2:
-        s = s.replace("<", "< ", 1) if rng.random() < 0.5 else s.replace(">", " >", 1)
-        if '"' in s:
-            s = tt.cql_string(tree, sp)   # do not touch white space inside quoted names
+    if rng.random() < 0.4:
+        # blanks at ANY token boundary, incl. before the first and after the last token (also of a bare, '<'-free name);
+        # quoted names are single tokens of the spec tokenizer, so their inner white space is never touched
+        blank = lambda: rng.choice(["", "", " ", "  ", "   "])
+        s = blank() + "".join(tok + blank() for tok in tt._tokens(s))
     ctx.case(("cql", s))
     exo = exotic_names(tree)
     witness = {"cql_type_string": s, "exotic_names": exo}
@@ -549,7 +550,7 @@ def run(ctx):
     ctx.assume("the CQL name of a user type is only compared when the type name is a lower-case bare word (whether other names should be "
                "quoted in cql_parameterized_type() is not specified); keyspace, name and field names are always compared structurally")
     ctx.assume("ReversedType has no CQL spelling (clustering order): its inner type's name is compared, as metadata._cql_from_cass_type does")
-    ctx.assume("CQL type strings use blanks only as white space; a bare user type called 'frozen' is not generated")
+    ctx.assume("CQL type strings use blanks only as white space (tabs / line feeds are not accepted by the scanner of the unchanged tree), at any token boundary incl. leading and trailing; a bare user type called 'frozen' is not generated")
     ctx.assume("sample values for the codec comparison avoid NaN and use orderable set elements / map keys; DynamicCompositeType has no codec")
 
     if ctx.worker in (None, 0):
